@@ -143,8 +143,9 @@ let case_hdecode () =
 (* bit cases on the model: sequential write phase, flush, read phases (seeks only while reading) *)
 let case_bits_model () =
   let n = nexti () in
-  let w = ref (if !inject_bytes = [] then Some bitw_init else None)
-  and bytes = ref (List.map z_of_int !inject_bytes) and rd = ref None and out = Buffer.create 256 in
+  let injected = !inject_bytes <> [] in
+  let w = ref (if injected then None else Some bitw_init)
+  and bytes = ref (List.map z_of_int !inject_bytes) and rd = ref None and bb = ref None and out = Buffer.create 256 in
   let supported = ref true in
   Buffer.add_string out "M n0";
   for _ = 1 to n do
@@ -156,19 +157,23 @@ let case_bits_model () =
                (match !w with Some s when !rd = None -> w := Some (bw_write s (z_of_int c) (z_of_int v)); "n" ^ string_of_int c
                             | _ -> supported := false; "?")
       | "e" -> ignore (nexti ());
-               (match !w with Some s -> bytes := bw_flush s; w := None | None -> ()); rd := None; "n0"
-      | "or" -> rd := Some (bitr_init !bytes); "n0"
+               (match !w with Some s -> bytes := bw_flush s; w := None | None -> ()); rd := None; bb := None; "n0"
+      | "or" -> (* injected elements run on the block-buffer model (CompBitbufModel), written ones on the byte-stream model *)
+               if injected then bb := Some (bb_start !bytes) else rd := Some (bitr_init !bytes); "n0"
       | "r" -> let c = nexti () in
-               (match !rd with
-                | Some s -> (match br_read s (z_of_int c) with
+               (match !bb, !rd with
+                | Some s, _ -> let (s', v) = bb_readbits !bytes s (z_of_int c) in bb := Some s'; "v" ^ string_of_int (int_of_z v)
+                | None, Some s -> (match br_read s (z_of_int c) with
                              | Some (s', v) -> rd := Some s'; "v" ^ string_of_int (int_of_z v)
                              | None -> supported := false; "?")
-                | None -> supported := false; "?")
+                | None, None -> supported := false; "?")
       | "s" -> let a = nexti () in let b = nexti () in
-               (match !rd with
-                | Some _ -> (match br_seek !bytes (z_of_int a) (z_of_int b) with
+               (match !bb, !rd with
+                | Some s, _ -> (match bb_seek !bytes s (z_of_int a) (z_of_int b) with
+                                | Some s' -> bb := Some s'; "n0" | None -> supported := false; "?")
+                | None, Some _ -> (match br_seek !bytes (z_of_int a) (z_of_int b) with
                              | Some s' -> rd := Some s'; "n0" | None -> supported := false; "?")
-                | None -> supported := false; "?")
+                | None, None -> supported := false; "?")
       | "x" -> "x," ^ hex !bytes
       | _ -> supported := false; "?" in
     Buffer.add_string out ("|" ^ tok)
